@@ -343,7 +343,9 @@ def c18(tier, seed):
     scratch = tempfile.mkdtemp(prefix="c18-", dir=os.path.join(common.VERIF, "run"))
     try:
         if tier == "quick":
-            res.absorb(run_engine(rel, "limits", 64, seed, {"skip-slow": 1}, nshards=11, build_name="rel", timeout_case=900))
+            # the small families (source below 600 kB) also go through the release CLI in the quick tier
+            naija = build("cli-rel")
+            res.absorb(run_engine(rel, "limits", 64, seed, {"skip-slow": 1, "naija": naija, "scratch": scratch, "cli-max-source": 600000}, nshards=11, build_name="rel+cli-rel", timeout_case=900))
         else:
             naija = build("cli-rel")
             res.absorb(run_engine(rel, "limits", 64, seed, {"naija": naija, "scratch": scratch}, nshards=11, build_name="rel+cli-rel", timeout_case=1800))
